@@ -1,6 +1,611 @@
-//! C25 — not built yet.
-use vcommon::Args;
+//! C25 — ObjectManager signals track the managed object set.
+//!
+//! Histories over C24's alphabet plus at/remove of `zbus::fdo::ObjectManager` at {/, /a}, every
+//! transition executed on a real p2p connection pair. A client-side collector (a `MessageStream`
+//! with a match rule for org.freedesktop.DBus.ObjectManager signals) is drained after every step;
+//! per manager path a mirror starts from `GetManagedObjects` taken when the manager first answers
+//! and is then updated only from that manager's InterfacesAdded/InterfacesRemoved signals.
+//! After every step the mirror must equal the manager's current listing (paths without interfaces
+//! ignored) and every reported interface must carry the current value of its property.
+//!
+//! As in C24 the verdict is taken on the last transition of every enumerated history; when a
+//! mirror has diverged at an earlier step (reported by the history ending there) the client is
+//! restarted from the listing, so one defective transition does not cascade.
 
-pub fn main(_args: &Args) -> i32 {
-    vcommon::machinery_failure("C25: check not built yet")
+use std::collections::{BTreeMap, BTreeSet, HashSet};
+use std::sync::atomic::{AtomicU64, Ordering::Relaxed};
+use std::sync::Mutex;
+
+use futures_lite::StreamExt;
+use serde_json::json;
+use vcommon::{enumerate, hash64, Args, Report, Violation};
+use zbus::{
+    zvariant::{OwnedObjectPath, OwnedValue},
+    Connection, MessageStream,
+};
+
+use crate::osrv::{
+    self, call, do_op, history_from_json, history_json, probe, relation, short_err, show_history, Op, OpRet,
+    Pair, Ran, Reply, Sys, I1, I2, IFACES, OM, PATHS,
+};
+
+/// Manager paths of the universe.
+const MGR: [&str; 2] = ["/", "/a"];
+
+/// path -> interface -> property -> rendered value
+type Listing = BTreeMap<String, BTreeMap<String, BTreeMap<String, String>>>;
+
+fn restrict(l: &Listing) -> Listing {
+    l.iter().filter(|(_, v)| !v.is_empty()).map(|(k, v)| (k.clone(), v.clone())).collect()
 }
+
+fn render(v: &OwnedValue) -> String {
+    format!("{:?}", &**v)
+}
+
+#[derive(Clone, Debug, PartialEq, Eq, Hash)]
+enum Sig {
+    Added { from: String, path: String, ifaces: BTreeMap<String, BTreeMap<String, String>> },
+    Removed { from: String, path: String, ifaces: Vec<String> },
+    Odd(String),
+}
+
+impl Sig {
+    fn from(&self) -> &str {
+        match self {
+            Sig::Added { from, .. } | Sig::Removed { from, .. } => from,
+            Sig::Odd(_) => "",
+        }
+    }
+    fn show(&self) -> String {
+        match self {
+            Sig::Added { from, path, ifaces } => format!("InterfacesAdded from {from}: {path} {ifaces:?}"),
+            Sig::Removed { from, path, ifaces } => format!("InterfacesRemoved from {from}: {path} {ifaces:?}"),
+            Sig::Odd(e) => format!("ODD {e}"),
+        }
+    }
+}
+
+#[derive(Clone, Debug, PartialEq, Eq, Hash)]
+enum Listed {
+    Ok(Listing),
+    /// No manager answers there (UnknownObject / UnknownInterface / UnknownMethod).
+    NoManager(String),
+    Odd(String),
+}
+
+impl Listed {
+    fn ok(&self) -> Option<&Listing> {
+        match self {
+            Listed::Ok(l) => Some(l),
+            _ => None,
+        }
+    }
+}
+
+/// What the client (and, for the current property values, the server) sees after a step.
+#[derive(Clone, Debug, PartialEq, Eq, Hash)]
+struct After {
+    sigs: Vec<Sig>,
+    listing: Vec<Listed>,
+    /// instance tag of every registered pair, read through `ObjectServer::interface`
+    vals: BTreeMap<Pair, u32>,
+}
+
+fn parse_sig(m: &zbus::Message) -> Sig {
+    let h = m.header();
+    let from = h.path().map(|p| p.to_string()).unwrap_or_default();
+    match h.member().map(|m| m.to_string()).as_deref() {
+        Some("InterfacesAdded") => {
+            match m
+                .body()
+                .deserialize::<(OwnedObjectPath, std::collections::HashMap<String, std::collections::HashMap<String, OwnedValue>>)>()
+            {
+                Ok((p, i)) => Sig::Added {
+                    from,
+                    path: p.to_string(),
+                    ifaces: i
+                        .into_iter()
+                        .map(|(k, v)| (k, v.iter().map(|(a, b)| (a.clone(), render(b))).collect()))
+                        .collect(),
+                },
+                Err(e) => Sig::Odd(format!("InterfacesAdded body: {e}")),
+            }
+        }
+        Some("InterfacesRemoved") => match m.body().deserialize::<(OwnedObjectPath, Vec<String>)>() {
+            Ok((p, i)) => Sig::Removed { from, path: p.to_string(), ifaces: i },
+            Err(e) => Sig::Odd(format!("InterfacesRemoved body: {e}")),
+        },
+        other => Sig::Odd(format!("unexpected member {other:?}")),
+    }
+}
+
+async fn after(client: Connection, server: Connection, mut stream: MessageStream) -> (MessageStream, After) {
+    let mut sigs = vec![];
+    loop {
+        match futures_lite::future::poll_once(stream.next()).await {
+            Some(Some(Ok(m))) => sigs.push(parse_sig(&m)),
+            Some(Some(Err(e))) => sigs.push(Sig::Odd(format!("stream error {e:?}"))),
+            Some(None) => {
+                sigs.push(Sig::Odd("stream ended".into()));
+                break;
+            }
+            None => break,
+        }
+    }
+    let mut listing = vec![];
+    for m in MGR {
+        let l = match call(&client, m, OM, "GetManagedObjects", &()).await {
+            Reply::Ok(msg) => match msg.body().deserialize::<zbus::fdo::ManagedObjects>() {
+                Ok(mo) => Listed::Ok(
+                    mo.into_iter()
+                        .map(|(p, is)| {
+                            (
+                                p.to_string(),
+                                is.into_iter()
+                                    .map(|(i, ps)| (i.to_string(), ps.iter().map(|(a, b)| (a.clone(), render(b))).collect()))
+                                    .collect(),
+                            )
+                        })
+                        .collect(),
+                ),
+                Err(e) => Listed::Odd(format!("bad reply body: {e}")),
+            },
+            Reply::Err(n, t) => match short_err(&n) {
+                s @ ("UnknownObject" | "UnknownInterface" | "UnknownMethod") => Listed::NoManager(s.into()),
+                s => Listed::Odd(format!("{s}: {t}")),
+            },
+            Reply::Other(e) => Listed::Odd(e),
+        };
+        listing.push(l);
+    }
+    let mut vals = BTreeMap::new();
+    let os = server.object_server();
+    for p in 0..PATHS.len() {
+        if let Ok(r) = os.interface::<_, I1>(PATHS[p]).await {
+            vals.insert((p, 0), r.get().await.val);
+        }
+        if let Ok(r) = os.interface::<_, I2>(PATHS[p]).await {
+            vals.insert((p, 1), r.get().await.val);
+        }
+    }
+    (stream, After { sigs, listing, vals })
+}
+
+fn apply(mirror: &mut Listing, s: &Sig) {
+    match s {
+        Sig::Added { path, ifaces, .. } => {
+            let e = mirror.entry(path.clone()).or_default();
+            for (k, v) in ifaces {
+                e.insert(k.clone(), v.clone());
+            }
+        }
+        Sig::Removed { path, ifaces, .. } => {
+            if let Some(e) = mirror.get_mut(path) {
+                for i in ifaces {
+                    e.remove(i);
+                }
+            }
+        }
+        Sig::Odd(_) => {}
+    }
+}
+
+fn alphabet() -> Vec<Op> {
+    let mut v = crate::c24::alphabet();
+    for p in 0..MGR.len() {
+        v.push(Op::AtOm { p });
+    }
+    for p in 0..MGR.len() {
+        v.push(Op::RemoveOm { p });
+    }
+    v
+}
+
+enum Exec {
+    DeadPrefix(usize, String),
+    /// The last operation (or the observation after it) panicked or hung. Not C25's subject.
+    LastFailed(String),
+    Last { history: Vec<Op>, pre: After, mirror_pre: Vec<Option<Listing>>, ret: OpRet, post: After, mirror_post: Vec<Option<Listing>> },
+}
+
+fn failed<T>(r: &Ran<T>) -> Option<String> {
+    match r {
+        Ran::Done(_) => None,
+        Ran::Hung => Some("hang".into()),
+        Ran::Panic { msg, loc } => Some(format!("panic: {msg} at {loc}")),
+    }
+}
+
+fn run_history(h: &[Op], trace: bool) -> Exec {
+    let mut sys = match Sys::new() {
+        Ok(s) => s,
+        Err(e) => vcommon::machinery_failure(&format!("cannot build the p2p pair: {e}")),
+    };
+    let c = sys.client.clone();
+    let stream = match sys.run("subscribe", async move {
+        let rule = zbus::MatchRule::builder()
+            .msg_type(zbus::message::Type::Signal)
+            .interface(OM)
+            .unwrap()
+            .build();
+        MessageStream::for_match_rule(rule, &c, Some(256)).await
+    }) {
+        Ran::Done(Ok(s)) => s,
+        _ => vcommon::machinery_failure("cannot create the signal collector"),
+    };
+    let (c, s) = (sys.client.clone(), sys.server.clone());
+    let (mut stream, mut st) = match sys.run("observe", after(c, s, stream)) {
+        Ran::Done(x) => x,
+        _ => vcommon::machinery_failure("cannot observe the initial state"),
+    };
+    let mut mirror: Vec<Option<Listing>> = vec![None; MGR.len()];
+    let n = h.len();
+    let mut result = None;
+    for (k, op) in h.iter().enumerate() {
+        let last = k + 1 == n;
+        let pre = st.clone();
+        let mirror_pre = mirror.clone();
+        let r = match *op {
+            Op::Lookup => {
+                let (c, s) = (sys.client.clone(), sys.server.clone());
+                match sys.run("lookup", probe(c, s)) {
+                    Ran::Done(_) => Ran::Done(OpRet::Unit),
+                    Ran::Hung => Ran::Hung,
+                    Ran::Panic { msg, loc } => Ran::Panic { msg, loc },
+                }
+            }
+            op => {
+                let s = sys.server.clone();
+                sys.run("op", do_op(s, op))
+            }
+        };
+        let ret = match r {
+            Ran::Done(v) => v,
+            r => {
+                let why = failed(&r).unwrap();
+                result = Some(if last { Exec::LastFailed(why) } else { Exec::DeadPrefix(k, why) });
+                break;
+            }
+        };
+        let (c, s) = (sys.client.clone(), sys.server.clone());
+        match sys.run("observe", after(c, s, stream)) {
+            Ran::Done((s2, a)) => {
+                stream = s2;
+                st = a;
+            }
+            r => {
+                let why = format!("observation {}", failed(&r).unwrap());
+                result = Some(if last { Exec::LastFailed(why) } else { Exec::DeadPrefix(k, why) });
+                // the stream went down with the future
+                let _ = vcommon::catch(move || drop(sys));
+                return result.unwrap();
+            }
+        }
+        for m in 0..MGR.len() {
+            if let Listed::Ok(l) = &st.listing[m] {
+                if let Some(mi) = mirror[m].as_mut() {
+                    for s in st.sigs.iter().filter(|s| s.from() == MGR[m]) {
+                        apply(mi, s);
+                    }
+                } else {
+                    mirror[m] = Some(l.clone());
+                }
+            } else {
+                mirror[m] = None;
+            }
+        }
+        if trace {
+            println!("step {}: {} -> {}", k + 1, op.show(), ret.show());
+            for s in &st.sigs {
+                println!("    signal: {}", s.show());
+            }
+            for m in 0..MGR.len() {
+                println!("    manager {:3} listing: {}", MGR[m], match &st.listing[m] {
+                    Listed::Ok(l) => format!("{:?}", restrict(l)),
+                    Listed::NoManager(e) => format!("none ({e})"),
+                    Listed::Odd(e) => format!("ODD {e}"),
+                });
+                println!("    manager {:3} mirror : {}", MGR[m], match &mirror[m] {
+                    Some(l) => format!("{:?}", restrict(l)),
+                    None => "not started".into(),
+                });
+            }
+            let (vs, _) = check(&h[..=k], &pre, &mirror_pre, &ret, &st, &mirror);
+            for v in &vs {
+                println!("    VIOLATION clause={} features={:?}\n      {}", v.clause, v.features, v.detail);
+            }
+        }
+        if last {
+            result = Some(Exec::Last { history: h.to_vec(), pre, mirror_pre, ret, post: st.clone(), mirror_post: mirror.clone() });
+        } else {
+            // A diverged client is restarted from the listing (its divergence is the verdict of the
+            // history that ends here).
+            for m in 0..MGR.len() {
+                if let (Some(mi), Listed::Ok(l)) = (&mut mirror[m], &st.listing[m]) {
+                    if restrict(mi) != restrict(l) {
+                        *mi = l.clone();
+                    }
+                }
+            }
+        }
+    }
+    drop(stream);
+    let _ = vcommon::catch(move || drop(sys));
+    result.unwrap_or_else(|| Exec::Last {
+        history: vec![],
+        pre: st.clone(),
+        mirror_pre: mirror.clone(),
+        ret: OpRet::Unit,
+        post: st,
+        mirror_post: mirror,
+    })
+}
+
+/// The managers (other than `m`) that are present and lie strictly between MGR[m] and `path`
+/// (or at `path`'s closest-manager position): true if MGR[m] is not the closest manager above `path`.
+fn shadowed(m: usize, path: &str, present: &[bool]) -> bool {
+    (0..MGR.len()).any(|o| o != m && present[o] && osrv::is_below(MGR[o], MGR[m]) && osrv::is_below(path, MGR[o]))
+}
+
+fn check(history: &[Op], pre: &After, mirror_pre: &[Option<Listing>], ret: &OpRet, post: &After, mirror_post: &[Option<Listing>]) -> (Vec<Violation>, String) {
+    let mut out = vec![];
+    let replay = json!({"history": history_json(history)});
+    let hs = show_history(history);
+    let op = history.last().cloned();
+    let kind = op.map(|o| o.kind()).unwrap_or("init");
+    let tpath = op.and_then(|o| o.path()).map(|p| PATHS[p]);
+    let target: Option<Pair> = match op {
+        Some(Op::At { p, i, .. }) | Some(Op::Remove { p, i }) => Some((p, i)),
+        _ => None,
+    };
+    let s = &pre.vals;
+    let ordinary_left_on_target = s.keys().any(|(q, j)| Some(PATHS[*q]) == tpath && Some((*q, *j)) != target);
+    let removes_something = match op {
+        Some(Op::Remove { p, i }) => s.contains_key(&(p, i)),
+        Some(Op::RemoveOm { p }) => pre.listing[p].ok().is_some(),
+        _ => false,
+    };
+    let empties_node = removes_something && !ordinary_left_on_target;
+    let has_live_descendant = tpath.map(|tp| s.keys().any(|(q, _)| osrv::is_below(PATHS[*q], tp))).unwrap_or(false);
+    let base = |v: Violation| {
+        v.feat("op", kind)
+            .feat("is_root", tpath == Some("/"))
+            .feat("empties_node", empties_node)
+            .feat("has_live_descendant", has_live_descendant)
+    };
+    let present_pre: Vec<bool> = pre.listing.iter().map(|l| l.ok().is_some()).collect();
+    let present_post: Vec<bool> = post.listing.iter().map(|l| l.ok().is_some()).collect();
+    let mut class = vec![format!("{kind} -> {}", match ret { OpRet::OtherErr(_) => "Err(other)".into(), r => r.show() })];
+    class.push(format!("signals={}", post.sigs.len().min(3)));
+
+    for s in &post.sigs {
+        if let Sig::Odd(e) = s {
+            out.push(base(Violation::new("signals-well-formed", format!("[{hs}] the collector received something it cannot apply: {e}"), replay.clone())));
+        }
+    }
+
+    for m in 0..MGR.len() {
+        // (1) the manager is there exactly when the history says so
+        let expected = match op {
+            Some(Op::AtOm { p }) if PATHS[p] == MGR[m] => true,
+            Some(Op::RemoveOm { p }) if PATHS[p] == MGR[m] => false,
+            _ => present_pre[m],
+        };
+        if let Listed::Odd(e) = &post.listing[m] {
+            out.push(base(Violation::new("manager-listing-available", format!("[{hs}] GetManagedObjects at {} failed oddly: {e}", MGR[m]), replay.clone())).feat("effect", "odd-error"));
+            continue;
+        }
+        if present_post[m] != expected {
+            out.push(
+                base(Violation::new(
+                    "manager-listing-available",
+                    format!(
+                        "[{hs}] after the last operation the manager registered at {} {} although no operation {} it ({:?})",
+                        MGR[m],
+                        if expected { "no longer answers GetManagedObjects" } else { "answers GetManagedObjects" },
+                        if expected { "removed" } else { "registered" },
+                        post.listing[m]
+                    ),
+                    replay.clone(),
+                ))
+                .feat("effect", if expected { "manager-lost" } else { "manager-appeared" })
+                .feat("manager_relation", tpath.map(|tp| relation(MGR[m], tp)).unwrap_or("none")),
+            );
+            continue;
+        }
+        let Some(listing) = post.listing[m].ok() else { continue };
+        class.push(format!("m{m}:{}", if present_pre[m] { "tracked" } else { "started" }));
+
+        // (2) mirror == listing
+        if let (true, Some(mi)) = (present_pre[m] && mirror_pre[m].is_some(), mirror_post[m].as_ref()) {
+            let (a, b) = (restrict(mi), restrict(listing));
+            if a != b {
+                // per differing (path, iface): effect
+                let mut groups: BTreeMap<(&'static str, &'static str, bool), BTreeSet<String>> = BTreeMap::new();
+                let paths: BTreeSet<&String> = a.keys().chain(b.keys()).collect();
+                let empty = BTreeMap::new();
+                for p in paths {
+                    let (ia, ib) = (a.get(p).unwrap_or(&empty), b.get(p).unwrap_or(&empty));
+                    let names: BTreeSet<&String> = ia.keys().chain(ib.keys()).collect();
+                    for i in names {
+                        let effect = match (ia.get(i), ib.get(i)) {
+                            (Some(_), None) => "stale-in-mirror",
+                            (None, Some(_)) => "missing-in-mirror",
+                            (Some(x), Some(y)) if x != y => "properties-differ",
+                            _ => continue,
+                        };
+                        let rel = tpath.map(|tp| relation(p, tp)).unwrap_or("none");
+                        let nested = shadowed(m, p, &present_post) || shadowed(m, p, &present_pre);
+                        groups.entry((effect, rel, nested)).or_default().insert(format!("({p} {i})"));
+                    }
+                }
+                for ((effect, rel, nested), which) in groups {
+                    let sigs: Vec<String> = post.sigs.iter().map(|s| s.show()).collect();
+                    out.push(
+                        base(Violation::new(
+                            "mirror-equals-listing",
+                            format!(
+                                "[{hs}] client of the manager at {}: after applying the signals of the last operation {sigs:?} the mirror differs from GetManagedObjects: {} {effect} (object is {rel} of the operated path{})",
+                                MGR[m],
+                                which.into_iter().collect::<Vec<_>>().join(" "),
+                                if nested { ", below a nested manager" } else { "" }
+                            ),
+                            replay.clone(),
+                        ))
+                        .feat("effect", effect)
+                        .feat("relation", rel)
+                        .feat("nested_manager", nested),
+                    );
+                }
+            }
+        }
+
+        // (3) every reported interface carries its current properties
+        for (p, is) in listing {
+            for (i, props) in is {
+                let (Some(pi), Some(ii)) = (PATHS.iter().position(|x| x == p), IFACES.iter().position(|x| x == i)) else { continue };
+                let Some(val) = post.vals.get(&(pi, ii)) else { continue };
+                let want: BTreeMap<String, String> = [("Val".to_string(), format!("U32({val})"))].into();
+                if *props != want {
+                    out.push(
+                        base(Violation::new(
+                            "reported-properties-current",
+                            format!("[{hs}] GetManagedObjects at {} reports {p} {i} with {props:?}, the registered instance has {want:?}", MGR[m]),
+                            replay.clone(),
+                        ))
+                        .feat("source", "listing"),
+                    );
+                }
+            }
+        }
+    }
+    for s in &post.sigs {
+        if let Sig::Added { from, path, ifaces } = s {
+            for (i, props) in ifaces {
+                let (Some(pi), Some(ii)) = (PATHS.iter().position(|x| x == path), IFACES.iter().position(|x| x == i)) else { continue };
+                let Some(val) = post.vals.get(&(pi, ii)) else { continue };
+                let want: BTreeMap<String, String> = [("Val".to_string(), format!("U32({val})"))].into();
+                if *props != want {
+                    out.push(
+                        base(Violation::new(
+                            "reported-properties-current",
+                            format!("[{hs}] InterfacesAdded from {from} reports {path} {i} with {props:?}, the registered instance has {want:?}"),
+                            replay.clone(),
+                        ))
+                        .feat("source", "signal"),
+                    );
+                }
+            }
+        }
+    }
+    (out, class.join(" "))
+}
+
+pub fn main(args: &Args) -> i32 {
+    if let Some(p) = &args.replay {
+        return replay(p);
+    }
+    let report = Report::new("C25", args.tier, args.seed, "model_checking");
+    let alpha = alphabet();
+    let depth = args.tier.pick(4usize, 5usize);
+    let states: Mutex<HashSet<u64>> = Mutex::new(HashSet::new());
+    let (transitions, histories, dead, failed_last) = (AtomicU64::new(0), AtomicU64::new(0), AtomicU64::new(0), AtomicU64::new(0));
+    let total = enumerate::count_strings(alpha.len(), depth);
+    vcommon::par_for(total, 64, |n| {
+        let mut idx = vec![];
+        enumerate::nth_string(alpha.len(), n, &mut idx);
+        let h: Vec<Op> = idx
+            .iter()
+            .enumerate()
+            .map(|(k, a)| match alpha[*a] {
+                Op::At { p, i, .. } => Op::At { p, i, val: k as u32 + 1 },
+                o => o,
+            })
+            .collect();
+        match run_history(&h, false) {
+            Exec::DeadPrefix(_, _) => {
+                dead.fetch_add(1, Relaxed);
+                report.outcome("extends a history whose last operation panicked (pruned)");
+            }
+            Exec::LastFailed(why) => {
+                failed_last.fetch_add(1, Relaxed);
+                report.eval(1);
+                histories.fetch_add(1, Relaxed);
+                transitions.fetch_add(h.len() as u64, Relaxed);
+                report.outcome(&format!(
+                    "{} -> {} (registry panics are C24's subject; world discarded)",
+                    h.last().map(|o| o.kind()).unwrap_or(""),
+                    why.split(':').next().unwrap_or("")
+                ));
+            }
+            Exec::Last { history, pre, mirror_pre, ret, post, mirror_post } => {
+                report.eval(1);
+                histories.fetch_add(1, Relaxed);
+                transitions.fetch_add(history.len() as u64, Relaxed);
+                let (vs, class) = check(&history, &pre, &mirror_pre, &ret, &post, &mirror_post);
+                report.outcome(&class);
+                let canon = |a: &After| hash64(&(a.listing.clone(), a.vals.keys().cloned().collect::<Vec<_>>()));
+                states.lock().unwrap().insert(canon(&post));
+                report.nontrivial(hash64(&(
+                    canon(&pre),
+                    history.last().map(|o| (o.kind(), o.path())),
+                    canon(&post),
+                    post.sigs.iter().map(|s| match s { Sig::Added { from, path, ifaces } => (0, from.clone(), path.clone(), ifaces.keys().cloned().collect::<Vec<_>>()), Sig::Removed { from, path, ifaces } => (1, from.clone(), path.clone(), ifaces.clone()), Sig::Odd(_) => (2, String::new(), String::new(), vec![]) }).collect::<Vec<_>>(),
+                )));
+                if hash64(&n) % (total as u64 / 10).max(1) == 0 {
+                    report.sample(json!({
+                        "history": show_history(&history),
+                        "signals_of_last_step": post.sigs.iter().map(|s| s.show()).collect::<Vec<_>>(),
+                        "listings": post.listing.iter().enumerate().map(|(m, l)| json!({"manager": MGR[m], "listing": match l { Listed::Ok(l) => json!(restrict(l)), Listed::NoManager(e) => json!(format!("none ({e})")), Listed::Odd(e) => json!(format!("odd {e}")) }})).collect::<Vec<_>>(),
+                        "violations": vs.len(),
+                    }));
+                }
+                for v in vs {
+                    report.violation(v);
+                }
+            }
+        }
+    });
+    report.set("full_tree_depth", json!(depth));
+    report.set("states", json!(states.lock().unwrap().len()));
+    report.set("states_meaning", json!("distinct (listing of either manager incl. property values, registered pairs) observations"));
+    report.set("transitions", json!(transitions.load(Relaxed)));
+    report.set("traces_validated_against_impl", json!(histories.load(Relaxed)));
+    report.set("histories_pruned_after_panic", json!(dead.load(Relaxed)));
+    report.set("histories_whose_last_operation_panicked", json!(failed_last.load(Relaxed)));
+    report.set("alphabet", json!(alpha.iter().map(|o| o.show()).collect::<Vec<_>>()));
+    report.assume("each transition is one API call followed by running every task of both connections until nothing is enabled; signals are collected by a MessageStream on the client and drained after every step");
+    report.assume("a client whose mirror diverged at an earlier step is restarted from the listing, so every verdict concerns the last transition of its history; every prefix is itself an enumerated history");
+    report.assume("histories whose last registry operation panics are recorded as an outcome class and not judged here (the statement of C25 is silent on panics; they are C24's finding)");
+    report.finish(
+        "every history over the alphabet up to the depth bound is executed on a fresh real connection pair; non-trivial = distinct (observed pre-state, operation, observed post-state, signals received) tuples",
+        true,
+    )
+}
+
+fn replay(path: &str) -> i32 {
+    let v = vcommon::load_replay(path);
+    let hist = history_from_json(&v["replay"]["history"])
+        .or_else(|| history_from_json(&v["history"]))
+        .unwrap_or_else(|| vcommon::machinery_failure("replay file has no history"));
+    println!("history: {}", show_history(&hist));
+    match run_history(&hist, true) {
+        Exec::DeadPrefix(k, why) => {
+            println!("step {} failed: {why}", k + 1);
+            1
+        }
+        Exec::LastFailed(why) => {
+            println!("the last operation failed: {why}");
+            1
+        }
+        Exec::Last { history, pre, mirror_pre, ret, post, mirror_post } => {
+            let (vs, _) = check(&history, &pre, &mirror_pre, &ret, &post, &mirror_post);
+            println!("replay: {} violation(s) on the last transition", vs.len());
+            (!vs.is_empty()) as i32
+        }
+    }
+}
+
+#[allow(unused)]
+fn _unused(_: I1, _: I2) {}
